@@ -3479,8 +3479,14 @@ def _o_move(case):
             if _norm(_subF(_fl64(again)[0], y_)) > tol:
                 v.append(("C15/move_inside_box/not-idempotent", f"{[float(c) for c in y_]} -> {again.tolist()}"))
     vol = float(struc.box_volume(box))
-    if abs(vol - abs(float(det))) > 16 * eps * cond * abs(float(det)):
-        v.append(("C15/box_volume/differs-from-triple-product", f"{vol!r} vs {abs(float(det))!r}"))
+    # reference: the exact rational triple product of the float entries.  numpy's det works through the LU factors AND
+    # through log / exp of the pivots, so its relative error grows with |ln| of the length scale (27 ulps for a
+    # 4e4-sized float64 box) besides the conditioning: the band is a few ulps of both, relative to the determinant
+    be = _box_exact(box)
+    det_exact = abs(float(_dotF(be[0], _crossF(be[1], be[2]))))
+    logs = sum(abs(math.log(max(_norm(r_), 1e-300))) for r_ in bx)
+    if abs(vol - det_exact) > eps * (16 * cond + 8 * (1 + logs)) * det_exact:
+        v.append(("C15/box_volume/differs-from-triple-product", f"{vol!r} vs {det_exact!r} (relative band {eps * (16 * cond + 8 * (1 + logs)):.3g})"))
     return v
 
 
